@@ -38,7 +38,7 @@ UNIVERSE = [
     dict(ident="A1", imports=[("../z/w", ["W"]), ("./x", ["X", "Z"])],
          block="/**\n * several\n * lines mentioning export type Zzz in the doc\n */\nexport type A1<T, U> = { a: W, b: X, c: Z, };"),
     dict(ident="B", imports=[("./sub/q", ["Q"])], block="export type B<T> = { \n/**\n * field doc\n */\nq: Q, t: T, };"),
-    dict(ident="Foo", imports=[("./x", ["Y"]), ("./y", ["Y2"])], block="export type Foo = Y | Y2;"),
+    dict(ident="Foo", imports=[("./x", ["Y"]), ("./y", ["Y2"])], block="export type Foo<T> = Y | Y2 | T;"),   # generic, next to Foo2: digits sort below `<`
     dict(ident="Foo2", imports=[], block="export type Foo2 = \"a\" | \"b\";"),
     dict(ident="a", imports=[("./x", ["X"])], block="export type a = Array<X>;"),
     dict(ident="Été", imports=[("./é", ["É"])], block="/** non-ASCII */\nexport type Été = É;"),
@@ -220,7 +220,7 @@ def run(ctx):
         "evaluations": len(hs_all) + mal["pairs"] + thr["runs"],
         "distinct_nontrivial": len({tuple(h) for h in hs_all if len(set(h)) >= 2}),
         "traces_validated_against_impl": thr["traces_valid"],
-        "rule": "all permutations of all subsets (hence all prefixes) of size <= %d of an %d-item universe sharing one file (doc comments, multi-line declarations, prefix names A/Ab/A1, generic keys, overlapping import groups, non-ASCII), each run through the real export_and_merge on a real file (every second one over stale content), plus %d random histories with repetitions, plus histories touching the %d known classes; non-trivial = at least two distinct items (a merge happened)" % (
+        "rule": "all permutations of all subsets (hence all prefixes) of size <= %d of an %d-item universe sharing one file (doc comments, multi-line declarations, prefix names A/Ab/A1, a generic Foo<T> next to Foo2 (digits sort below `<`), generic keys, overlapping import groups, non-ASCII), each run through the real export_and_merge on a real file (every second one over stale content), plus %d random histories with repetitions, plus histories touching the %d known classes; non-trivial = at least two distinct items (a merge happened)" % (
             nmax, len(UNIVERSE), 300 if ctx.quick else 3000, len(KF_UNIVERSE)),
         "samples": [dict(history=hs_all[j], idents=[items[i]["ident"] for i in hs_all[j]], final_file=impl[j][1:]) for j in (len(hs_all) // 3,)],
         "correspondence": {"histories": len(hs_all), "digest_chunks": nchunks, "suspects": len(suspects), "confirmed_breaks": len(corr_breaks)},
